@@ -250,3 +250,23 @@ fn c05_state_decision_matches_reference() {
     kani::cover!(want == DEC_P2, "P2");
     kani::cover!(want == DEC_S1, "S1");
 }
+
+// ---- helpers for other mounts ------------------------------------------------------------
+
+pub(crate) fn fm_len<A>(b: &Bmca<A>) -> usize {
+    crate::bmc::foreign_master::verif_fm::list_len(&b.foreign_master_list)
+}
+
+pub(crate) fn fm_messages<A>(b: &Bmca<A>) -> usize {
+    crate::bmc::foreign_master::verif_fm::list_messages(&b.foreign_master_list)
+}
+
+/// Build the value `take_best_port_announce_message` returns for a qualified announce received
+/// on `receiver`.
+pub(crate) fn mk_best(message: AnnounceMessage, age: Duration, receiver: PortIdentity) -> BestAnnounceMessage {
+    BestAnnounceMessage { header: message.header, message, age, identity: receiver }
+}
+
+pub(crate) fn best_message(b: &BestAnnounceMessage) -> &AnnounceMessage {
+    &b.message
+}
